@@ -24,6 +24,7 @@ from sa.symex import Interp
 
 RULES = {
     "R-C03-p": "the index-cube fill closures come in a traced and an untraced variant (timing diagnostics): both store the same cell values",
+    "R-C03-q": "per configuration, a region that receives weight values is a float region and one that receives fact values is float or has the summed array's dtype (an integer region truncates on the store)",
     "R-C03-o": "the flat cell number the array cube hands to fill() is the SUM over all dimensions of the strided 1-D coordinate slices (reduce(operator.add, one slice per dimension)), None only when there is no dimension",
     "R-C03-n": "xfunc.bins presents every cell of range(size) with the mask coordinates == u (and, without a size, every distinct value with its rows): the per-cell fill loops of the array cube rest on it",
     "R-C03-m": "aggregate constructors do not overwrite the caller's arrays (imported from the C17 frame analysis): NaN-seeding or zero-filling the caller's own array changes what every later computation over it - the other cube, a group-by, the next statistic - sees",
@@ -390,6 +391,11 @@ def main(tier):
     for rule, status, where, cons, detail, wit in CD.items:
         rep.add(rule, where, cons, status, detail, True, wit)
     rep.floor("R-C03-i", 20, nd)
+    CK = AT.Collector()
+    nk = AT.rule_region_kind(prog, CK, "R-C03-q", modules=("ffuncs", "xfuncs"), classes=None)
+    for rule, status, where, cons, detail, wit in CK.items:
+        rep.add(rule, where, cons, status, detail, True, wit)
+    rep.floor("R-C03-q", 60, nk)
     rule_g(prog, rep)
     rule_l(prog, rep)
     rule_o(prog, rep)
